@@ -10,4 +10,14 @@ def run(c):
         out = c.harness("sched", ["delayed", "-n", "400" if c.tier == "quick" else "5000"], timeout=600)
         if out:
             c.cases("delayed", out, D_IMPORTS, "dcase", corr=[], spec=["spec_delayed"], premise=["premise_delayed"])
+    # bounded mailbox + fallback over pid / name / ALIAS addressing: wrapper (original recipient, tag), exactly once
+    is_fb_replay = False
+    if c.replay:
+        import json
+        is_fb_replay = json.load(open(c.replay)).get("engine", "") == "mbox-fallback"
+    if not c.replay or is_fb_replay:
+        args = ["fallback", "-replay", c.replay] if is_fb_replay else ["fallback", "-n", "150" if c.tier == "quick" else "3000"]
+        out = c.harness("mbox", args, timeout=900)
+        if out:
+            c.monitor("mbox-fallback", out)
     c.assumptions.append("time.Timer.Stop returns true iff it prevented the function from running (Go runtime contract; hypothesis of C02_delayed)")
